@@ -53,6 +53,8 @@ type ltEvent struct {
 	Bal    []ltBal    `json:"bal,omitempty"`
 	Pend   []string   `json:"pend,omitempty"`
 	Err    string     `json:"err,omitempty"`
+	Q      []int64
+	Utxos  [][]interface{}
 }
 
 type ltRec struct {
@@ -267,6 +269,55 @@ func (r *ltRec) api(s *Step) error {
 	return err
 }
 
+// queries is the body of the query thread (C17): it asks the wallet for its balance and for its unspent outputs
+// in turn while everything else runs, and records each call as a q.begin / q.end pair with the answer.
+func (r *ltRec) queries(stop <-chan struct{}, name string) {
+	w := r.w
+	rnd := rand.New(rand.NewSource(r.rnd.Int63()))
+	for k := 0; ; k++ {
+		select {
+		case <-stop:
+			return
+		default:
+		}
+		api := "balance"
+		if k%2 == 1 {
+			api = "utxo"
+		}
+		r.mu.Lock()
+		r.add(ltEvent{Ev: "q.begin", Op: api, W: name})
+		r.mu.Unlock()
+		e := ltEvent{Ev: "q.end", Op: api, W: name}
+		if api == "balance" {
+			bal, err := w.W.WalletBalance(0, true)
+			if err != nil {
+				e.Err = err.Error()
+			} else {
+				e.Q = []int64{amt(bal.Total), amt(bal.Spendable), amt(bal.WithdrawableStaking), amt(bal.WithdrawableBinding)}
+			}
+			r.mu.Lock()
+		} else {
+			um, err := w.W.GetUtxo(nil)
+			r.mu.Lock()
+			if err != nil {
+				e.Err = err.Error()
+			}
+			e.Utxos = [][]interface{}{}
+			for _, l := range um {
+				for _, d := range l {
+					e.Utxos = append(e.Utxos, []interface{}{w.nameOf(d.TxId), int(d.Vout)})
+				}
+			}
+		}
+		r.add(e)
+		if e.Err != "" && r.bad == "" {
+			r.bad = "query " + api + ": " + e.Err
+		}
+		r.mu.Unlock()
+		time.Sleep(time.Duration(rnd.Intn(900)) * time.Microsecond)
+	}
+}
+
 func (r *ltRec) lines() []json.RawMessage {
 	r.mu.Lock()
 	defer r.mu.Unlock()
@@ -292,6 +343,21 @@ func (r *ltRec) lines() []json.RawMessage {
 			m["det"], m["done"] = *e.Det, *e.Done
 		case "Announce":
 			m["t"] = e.T
+		case "q.begin":
+			m["api"], m["w"] = e.Op, e.W
+		case "q.end":
+			m["api"], m["w"] = e.Op, e.W
+			if e.Op == "balance" && len(e.Q) == 4 {
+				m["total"], m["spendable"], m["wstaking"], m["wbinding"] = e.Q[0]/Unit, e.Q[1]/Unit, e.Q[2]/Unit, e.Q[3]/Unit
+				if e.Q[0]%Unit != 0 || e.Q[1]%Unit != 0 || e.Q[2]%Unit != 0 || e.Q[3]%Unit != 0 {
+					m["total"] = -1 // not a sum of whole coins of the universe: no boundary state explains it
+				}
+			} else {
+				m["utxos"] = e.Utxos
+			}
+			if e.Err != "" {
+				m["err"] = e.Err
+			}
 		}
 		b, _ := json.Marshal(m)
 		out = append(out, b)
